@@ -353,7 +353,7 @@ pub fn run_check(prop: &str, tier: &str) -> i32 {
             }
         }
         "C11" => {
-            let s = pick(&["mem-ttl", "mem-wide", "ts-mem", "disk-wide-v3", "disk-v1-ttl", "disk-v3-ttl", "focus-v2-ttl", "focus-v3-ttl-nocache", "focus-v3-ttl"], thorough);
+            let s = pick(&["mem-ttl", "mem-ttl-wrap", "disk-ttl-wrap-v3", "mem-wide", "ts-mem", "disk-wide-v3", "disk-v1-ttl", "disk-v3-ttl", "focus-v2-ttl", "focus-v3-ttl-nocache", "focus-v3-ttl"], thorough);
             seq_check(prop, tier, s, &["C11", "C01", "C14"], budget * 0.5, &mut report);
             // sweeper vs writers renewing / replacing the key, all interleavings within the bound
             let bound = if thorough { 3 } else { 2 };
